@@ -6,6 +6,7 @@ COQ_TARGETS = ["props/C17.vo", "model/SemCheck.vo"]
 THEOREMS = [
     ("EG.props.C17", "sem_accounting"),
     ("EG.props.C17", "C17_http_cap"),
+    ("EG.props.C17", "C17_cap_follows_latest_spec"),
     ("EG.props.C17", "C17_released_capacity_reusable"),
     ("EG.props.C17", "C17_close_releases_once"),
     ("EG.props.C17", "C17_mqtt_cap"),
@@ -132,11 +133,12 @@ def encode(c):
         for op in i.get("ops") or []:
             if not op:
                 continue
-            ops.append("HDial" if op[0] == 0 else C("HClose", N(op[1])) if op[0] == 1 else C("HReload", Z(op[1])))
+            ops.append("HDial" if op[0] == 0 else C("HClose", N(op[1])) if op[0] == 1 else C("HReload", Z(op[1])) if op[0] == 2
+                       else "HRestart" if op[0] == 3 else "HFail" if op[0] == 4 else "HRecover")
         steps = [Rec(h_decoded=Z(s["decoded"]), h_served=L([N(x) for x in s.get("served") or []]), h_waiting=Z(s["waiting"]),
-                     h_cur=Z(s["cur"]), h_real=Z(s["real"]), h_wq=_zl(s.get("wq")), h_shr=Z(s["shr"]), h_skip=B(s.get("skip")))
+                     h_cur=Z(s["cur"]), h_real=Z(s["real"]), h_wq=_zl(s.get("wq")), h_shr=Z(s["shr"]), h_skip=B(s.get("skip")), h_running=B(s.get("running")))
                  for s in o.get("steps") or []]
-        return Rec(hc_init=Z(i["init"]), hc_M=Z(i["M"]), hc_ops=L(ops), hc_obs=L(steps), hc_desync=B(o.get("desync")),
+        return Rec(hc_init=Z(i["init"]), hc_busy=B(i.get("busyStart")), hc_M=Z(i["M"]), hc_ops=L(ops), hc_obs=L(steps), hc_desync=B(o.get("desync")),
                    hc_bad=B(bool(o.get("bad"))))
     if g == "storm":
         return Rec(st_caps=_zl(i["caps"]), st_max=_zl(o.get("max")), st_accepted=Z(o["accepted"]), st_closed=Z(o["closed"]),
